@@ -605,6 +605,7 @@ pub fn kill_child(args: &[String]) {
     let cfg = Cfg { n: args[1].parse().unwrap(), async_mode: args[2] == "true" };
     let opsq: Vec<Op> = serde_json::from_str(&args[3]).unwrap();
     let k: u64 = args[4].parse().unwrap();
+    let pre = args.get(5).map_or(false, |x| x == "pre");
     let cnt = Arc::new(std::sync::atomic::AtomicU64::new(0));
     let c2 = cnt.clone();
     shim::arm(
@@ -619,12 +620,16 @@ pub fn kill_child(args: &[String]) {
         }),
     );
     shim::participate(true);
-    if let Ok(mut st) = Store::<String>::open(&dir, cfg.config()) {
+    let conf = cassadilia::Config { pre_create_cas_dirs: pre, ..cfg.config() };
+    if let Ok(mut st) = Store::<String>::open(&dir, conf) {
         for op in &opsq {
             let _ = st.apply(op);
         }
         st.close();
     }
+    shim::participate(false);
+    // k = 0: report how many mutating calls the run makes
+    println!("CALLS {}", cnt.load(std::sync::atomic::Ordering::SeqCst));
     unsafe { libc::_exit(0) };
 }
 
